@@ -339,7 +339,7 @@ func hostileInput(idx int) []byte {
 
 func C10(job *Job, r *Report) {
 	r.Level = "exploration"
-	r.Rule = "bounded-exhaustive input grid: 8 content shapes (constant, period-7, text, LCG random, RIFF..WAVE and ID3 sniffed as audio, compressible head + random tail, random head + compressible tail) x sizes {231..234 and 255..258 (record = 256 boundary), 7167, 10239..10241 (probe size), 14628, 65536, 1 MB+1} x client flags {0, 0x10, 0x204}; each value is set over an older version and read back (get, ?key, @ listing) from the write buffer, from the flushed file, after a restart with hints, after a restart that rebuilds hints from data and after a GC pass that relocates it; the stored record (independent decoder) carries the 0x10000 bit iff its body is compressed, compressed bodies decompress with the Go implementation to the value, client-compressed values are stored verbatim; C compress -> Go decompress and Go compress (level 3) -> C safe decompress for every shape and size up to 64 KB. Safe decompressors on hostile bytes in a sacrificial subprocess per batch: all strings of length <= 2, every size-consistent 3- or 9-byte header (all 256 flag bytes x declared size in {0,1,2,3,4,8,16,63,64}) x all payloads of length <= 3 over {00,01,03,7f,80,fe,ff}, every single-byte substitution of four valid streams; a signal/abort/timeout of the subprocess is a violation"
+	r.Rule = "bounded-exhaustive input grid: 8 content shapes (constant, period-7, text, LCG random, RIFF..WAVE and ID3 sniffed as audio, compressible head + random tail, random head + compressible tail) x sizes {231..234 and 255..258 (record = 256 boundary), 7167, 10239..10241 (probe size), 14628, 65536, 1 MB+1} x client flags {0, 0x10, 0x204}; each value is set over an older version and read back (get, ?key, @ listing) from the write buffer, from the flushed file, after a restart with hints, after a restart that rebuilds hints from data and after a GC pass that relocates it; the stored record (independent decoder) carries the 0x10000 bit iff its body is compressed, compressed bodies decompress with the Go implementation to the value, client-compressed values are stored verbatim; C compress -> Go decompress and Go compress (level 3) -> C safe decompress for every shape and size up to 64 KB, and for 56 'marker + copy' buffers whose only match lies at distance 2^14-3..2^14+3 or 2^17-3..2^17+3 with length 3..6 (the encoder's match-token limits). Safe decompressors on hostile bytes in a sacrificial subprocess per batch: all strings of length <= 2, every size-consistent 3- or 9-byte header (all 256 flag bytes x declared size in {0,1,2,3,4,8,16,63,64}) x all payloads of length <= 3 over {00,01,03,7f,80,fe,ff}, every single-byte substitution of four valid streams; a signal/abort/timeout of the subprocess is a violation"
 	r.Assumptions = []string{"whether the server compresses a given value is not pinned", "declared decompressed sizes above 64 bytes in forged headers are not enumerated (memory)", "the Go and C implementations are compared at compression level 3 (the level the C library is built with)"}
 	sizes := []int{231, 232, 233, 234, 255, 256, 257, 258, 7167, 10239, 10240, 10241, 14628, 65536, 1<<20 + 1}
 	flags := []uint32{0, 0x10, 0x204}
@@ -393,6 +393,52 @@ func C10(job *Job, r *Report) {
 						if d, err := quicklz.DecompressSafe(g1); err != nil || !bytes.Equal(d, v) {
 							r.Violate(Violation{Property: "C10", Sig: fmt.Sprintf("C10|go-level1-roundtrip|%s/%d", sh, sz), Class: "go-level1-roundtrip", Summary: fmt.Sprintf("Go level-1 round trip differs for %s/%d: %v", sh, sz, err), Replay: mustJSON(map[string]interface{}{"kind": "cross", "shape": sh, "size": sz})})
 						}
+					}
+				}
+			}
+		}
+	}
+	// match-distance boundaries of the encoder: a buffer of zeros with a short marker and a copy of its first L bytes at
+	// distance d, for every d around 2^14 (limit of the short match token) and 2^17 and L = 3..6; C compress -> C safe
+	// decompress and Go decompress, Go compress -> C safe decompress
+	if job.Part == "" || job.Part == "values" {
+		for _, base := range []int{1 << 14, 1 << 17} {
+			for d := base - 3; d <= base+3; d++ {
+				for L := 3; L <= 6; L++ {
+					mine := unit%job.NShards == job.Shard
+					unit++
+					if !mine {
+						continue
+					}
+					v := make([]byte, d+4000)
+					copy(v[1000:], "abcdefg")
+					copy(v[1000+d:], "abcdefg"[:L])
+					v[1000+d+L] = 'Z'
+					r.Count("evaluations", 1)
+					r.Count("nontrivial_inputs", 1)
+					r.Count("match_distance_inputs", 1)
+					name := fmt.Sprintf("marker-copy/dist%d/len%d", d, L)
+					if c, ok := quicklz.CCompress(v); ok {
+						g, err := quicklz.DecompressSafe(c.Body)
+						if err != nil || !bytes.Equal(g, v) {
+							r.Violate(Violation{Property: "C10", Sig: "C10|cross-c-to-go|" + name, Class: "cross-c-to-go", Summary: fmt.Sprintf("C compress -> Go decompress differs for %s: %v", name, err), Replay: mustJSON(map[string]interface{}{"kind": "cross", "shape": name})})
+						}
+						arr, err := quicklz.CDecompressSafe(c.Body)
+						if err != nil || !bytes.Equal(arr.Body, v) {
+							r.Violate(Violation{Property: "C10", Sig: "C10|roundtrip-c|" + name, Class: "roundtrip-c", Summary: fmt.Sprintf("C compress -> C safe decompress differs for %s: %v", name, err), Replay: mustJSON(map[string]interface{}{"kind": "cross", "shape": name})})
+						}
+						if err == nil {
+							arr.Free()
+						}
+						c.Free()
+					}
+					gc := quicklz.Compress(v, 3)
+					arr, err := quicklz.CDecompressSafe(gc)
+					if err != nil || !bytes.Equal(arr.Body, v) {
+						r.Violate(Violation{Property: "C10", Sig: "C10|cross-go-to-c|" + name, Class: "cross-go-to-c", Summary: fmt.Sprintf("Go compress -> C safe decompress differs for %s: %v", name, err), Replay: mustJSON(map[string]interface{}{"kind": "cross", "shape": name})})
+					}
+					if err == nil {
+						arr.Free()
 					}
 				}
 			}
